@@ -33,6 +33,10 @@ pub const EXP_ITEM: u8 = 0;
 pub const EXP_FILTERED: u8 = 1;
 pub const EXP_INCOMPLETE: u8 = 2;
 pub const EXP_REJECT: u8 = 3;
+/// Leftover bytes inside a declared verbose payload (declared length larger than the arguments need): the layout
+/// description leaves the verdict open, so both "message" and "rejected" agree with the reference (DESIGN.md section 3);
+/// what C04 demands in the first case - the remainder starts at the declared end - is asserted all the same.
+pub const EXP_ITEM_OR_REJECT: u8 = 4;
 
 /// For one declared length `len_field`: the parser's verdict is the reference
 /// verdict `expect`; whenever it returns Ok, the remainder is the strict suffix
@@ -56,7 +60,7 @@ pub fn consumption_one(s: &Shape, tail: usize, len_field: u16, fm: FilterMode, e
                     assert!(*n == len_field as usize - headers_len(s.htyp), "filtered-out marker does not carry the payload length");
                 }
                 ParsedMessage::Item(m) => {
-                    assert!(expect == EXP_ITEM, "message returned where the reference filters / refuses / waits");
+                    assert!(expect == EXP_ITEM || expect == EXP_ITEM_OR_REJECT, "message returned where the reference filters / refuses / waits");
                     assert!(m.header.payload_length as usize == len_field as usize - headers_len(s.htyp));
                 }
                 ParsedMessage::Invalid => assert!(false, "Invalid marker with a remainder"),
@@ -69,7 +73,7 @@ pub fn consumption_one(s: &Shape, tail: usize, len_field: u16, fm: FilterMode, e
             }
         }
         Err(_) => {
-            assert!(expect == EXP_REJECT, "rejected where the reference accepts or waits for more data");
+            assert!(expect == EXP_REJECT || expect == EXP_ITEM_OR_REJECT, "rejected where the reference accepts or waits for more data");
         }
     }
     kani::cover!(true, "call returned");
